@@ -6,7 +6,8 @@ Programs are grown top-down under a typing context and stay inside the subset in
   * floats are small dyadic rationals combined with + - and multiplication/division by literals (exact in float32 and float64);
   * lists / dicts / objects are never aliased and never mutated through a parameter; indices and keys are in range by construction;
   * functions are defined before they are used (the emitted text is a header without forward declarations);
-  * dict iteration only feeds order-independent aggregations; argument expressions have no side effects.
+  * dict iteration only feeds order-independent aggregations; argument expressions have no side effects;
+  * a list is never modified inside a loop that iterates over it or over range(len(list)) (Python fixes the bound once).
 Every program exposes entry functions with scalar parameters plus a set of argument vectors.
 """
 from __future__ import annotations
@@ -639,7 +640,10 @@ class TypedGen:
 				a, b, st = r.choice([0, 1, 2]), r.choice([5, 7, 9]), r.choice([1, 2, 3])
 				head, lo, hi = f'range({a}, {b}, {st})' if st != 1 or r.random() < 0.5 else f'range({a}, {b})', a, b
 			elif y < 0.8 and lists:
-				head, lo, hi = f'range(len({r.choice(lists).name}))', 0, 40
+				bound_list = r.choice(lists)
+				head, lo, hi = f'range(len({bound_list.name}))', 0, 40
+				# Python evaluates the bound once, the emitted for statement re-evaluates it: the list that bounds the loop is read-only in the body
+				inner[bound_list.name] = Var(bound_list.name, bound_list.type, minlen=0, mutable=False)
 			else:
 				e = self.clampi(self.nonneg(scope, 1))
 				head, lo, hi = f'range({e.at(80)} % 6)', 0, 5
